@@ -89,6 +89,40 @@ def run(ctx):
                     o.close()
             if pass_no == 0:
                 rep.sample({"table": tn, "opcodes": len(ops), "operands_per_opcode": len(grid)})
+        # the answer must not depend on the host Python either (a construct only newer hosts have, a
+        # table value taken from the running interpreter): the oldest and the newest installed host,
+        # all hosts in the thorough tier, on a small operand grid, against the main host's answers
+        hosts = dict(core.HOSTS) if ctx.thorough else {k: v for k, v in core.HOSTS.items() if k in (min(core.HOSTS), max(core.HOSTS))}
+        small = [0, 1, 2, 3, 7, 8, 15, 16, 255, 256, 257]
+        wm = Worker()
+        try:
+            for hv, path in sorted(hosts.items()):
+                if path == core.MAIN_HOST:
+                    continue
+                hw = Worker(path)
+                try:
+                    for tn in names:
+                        t = tabs[tn]
+                        v = tuple(t["version_tuple"][:2])
+                        if v < (3, 6):
+                            continue
+                        ops = [op for op in range(256) if t["opname"][op] and not t["opname"][op].startswith("<")]
+                        pairs = [[op, a] for op in ops for a in (small if op >= t["HAVE_ARGUMENT"] else [0])]
+                        a1 = wm.r("stack_effects", table=tn, pairs=pairs)
+                        a2 = hw.r("stack_effects", table=tn, pairs=pairs)
+                        rep.count(len(pairs))
+                        for (op, a), x, y in zip(pairs, a1, a2):
+                            if x != y:
+                                rep.violation("host-effect:%d.%d:%s:%d" % (hv[0], hv[1], tn, op),
+                                              "xstack_effect(%s %d) for table %s is %s under host %d.%d and %s under the main host"
+                                              % (t["opname"][op], a, tn, y, hv[0], hv[1], x),
+                                              {"table": tn, "opcode": op, "opname": t["opname"][op], "arg": a, "host": "%d.%d" % hv,
+                                               "actual": y, "expected": x, "call": "xstack_effect(%d, %s, %d) under %s" % (op, tn, a, path)})
+                                break
+                finally:
+                    hw.close()
+        finally:
+            wm.close()
     finally:
         w.close()
 
